@@ -123,6 +123,38 @@ def main():
                             pass
                 except Exception as e:
                     add(dict(base, kind='len', q=q, got='exc:' + type(e).__name__))
+        # byValue(min): (value, key) pairs with value >= min, "normalized" by min, descending.  The values of the tree are
+        # replaced first (replacing changes no shape): small numbers for the numeric value families (exact divisions),
+        # the embedding's values for object / fs values
+        if not is_set and hasattr(t, 'byValue') and cs:
+            vc = fam[1]
+            if vc in 'ILUQ':
+                pool, mins, scale, norm = [1, 2, 3, 6, 7, 12], ([0, 1, 2, 3, 5] + ([-1] if vc in 'IL' else [])), 1, 1
+                real, unreal = (lambda x: x), (lambda x: x if isinstance(x, int) and not isinstance(x, bool) else 'v?%r' % (x,))
+            elif vc == 'F':
+                pool, mins, scale, norm = [2, 4, 6, 12, 24], [2, 4, 8, 0, -4], 4, 1
+                real, unreal = (lambda x: x / 4.0), (lambda x: int(x * 4) if isinstance(x, float) and x * 4 == int(x * 4) else 'v?%r' % (x,))
+            else:
+                pool, mins, scale, norm = list(range(1, len(emb.vals) + 1)), list(range(1, len(emb.vals) + 1)), 1, 0
+                real, unreal = emb.val, emb.rv
+            if impl == 'py':
+                norm = 0            # (recorded finding: the Python implementation does not normalize)
+            nvs = []
+            for r_ in cs:
+                v_ = pool[(r_ * 3 + r_ // 2) % len(pool)]
+                t[emb.key(r_)] = real(v_)
+                nvs.append(v_)
+            for mn in mins:
+                try:
+                    res = t.byValue(real(mn))
+                    got = [[unreal(v_), rk(k_)] for v_, k_ in list(res)]
+                    if impl == 'c' and type(res) is not list:
+                        got = 'type:' + type(res).__name__
+                except Exception as e:
+                    got = 'exc:' + type(e).__name__
+                counts['calls'] += 1
+                counts['byvalue'] = counts.get('byvalue', 0) + 1
+                add(dict(cs=cs, vs=vs, kind='byvalue', nvs=nvs, min=mn, scale=scale, norm=norm, got=got))
     embed.restore_sizes(old)
     json.dump(dict(records=list(recs.values()), counts=counts), open(sys.argv[2], 'w'))
 
